@@ -127,11 +127,12 @@ theorem processJob_rel (cfg : ArbCfg) (uf : List Nat) (st : ArbSt) (jid : Nat) (
         simp only [hu, markPassed, if_true]
         exact stepRel_refl st
       · have hu' : uf.contains jid = false := by simpa using hu
-        refine ⟨_, _, by simpa [hu'] using stepRel_markPassed st h1 jid j hj, ?_, ?_⟩
+        rw [hu']
+        refine ⟨_, _, stepRel_markPassed st h1 jid j hj, ?_, ?_⟩
         · intro jj hjj
           by_cases hp : j.phase ≤ 1
           · simp [hp] at hjj; subst hjj
-            exact ⟨hj, by rw [hproc]; simp [markPassed, hu']⟩
+            exact ⟨hj, by rw [hproc, hu']; simp [markPassed]⟩
           · simp [hp] at hjj
         · intro jj p hjj hpod hfp hann
           by_cases hp : j.phase ≤ 1
